@@ -12,6 +12,9 @@ from concurrent.futures import ThreadPoolExecutor
 from vlib import BUILD, Infra, build, log, next_replay_path, run, scratch, tlc, tlc_ok, write_evidence
 
 RE_BAD = re.compile(r'<<"BAD", (\d+), (\d+), "(\w+)">>')
+RE_EV = re.compile(r'"ev":"(\w+)"')
+ROUTING_ALPHABET = {"RegisterRouter", "Route", "DeleteRouter", "CallRecv", "CallEnd", "HStart", "QF", "StubRet", "Routers",
+                    "ProgEnd", "Quiescent", "Probe"}
 
 
 def split(trace, shards, work, header='{"ev":"Prog"'):
@@ -319,8 +322,13 @@ def check_routing(prop, tier, seed, replay):
                 with open(progs, "w") as f:
                     f.write(json.dumps(rp["prog"]) + "\n")
                 trace = os.path.join(work, "trace.ndjson")
-                drive_prog(progs, trace, os.path.join(work, "st.json"), seed, 0, rp.get("sendbuf", 0), "routing", 1)
-                bad, _, _ = validate(trace, "RoutingTrace", FIFO_TCFG, 1, work)
+                if str(rp.get("rejected_event", "")).startswith("Gorums:"):
+                    import check_sys
+                    drive_prog(progs, trace, os.path.join(work, "st.json"), seed, 0, rp.get("sendbuf", 0), "all", 1)
+                    bad, _, _ = validate(trace, "GorumsTrace", check_sys.TCFG, 1, work)
+                else:
+                    drive_prog(progs, trace, os.path.join(work, "st.json"), seed, 0, rp.get("sendbuf", 0), "routing", 1)
+                    bad, _, _ = validate(trace, "RoutingTrace", FIFO_TCFG, 1, work)
             if bad:
                 log("VIOLATION property=%s replay=%s" % (prop, replay))
                 return 1
@@ -345,17 +353,33 @@ def check_routing(prop, tier, seed, replay):
         reported, allbad, total_exec, total_calls, nontriv, tstates = [], 0, 0, 0, 0, 0
         samples = []
         unconfirmed = []
+        sysprog_sections = sysprog_events = 0
         for sb in (0, 2):
             trace = os.path.join(work, "trace-%d.ndjson" % sb)
             stats = os.path.join(work, "stats-%d.json" % sb)
             maxp = 40000 if len3 else 0
-            p = drive_prog(progs, trace, stats, seed + sb, maxp, sb, "routing", 1)
+            # recorded with every event of every layer: the routing events go to RoutingTrace, the complete
+            # trace to GorumsTrace (the composition: ids, issue loops, request flow, handlers, collection, outcomes)
+            trace_all = os.path.join(work, "trace-all-%d.ndjson" % sb)
+            p = drive_prog(progs, trace_all, stats, seed + sb, maxp, sb, "all", 1)
             if p.returncode != 0:
                 raise Infra("driver failed:\n" + p.stdout[-3000:])
             st = json.load(open(stats))
             log("sendbuf=%d: %s" % (sb, p.stdout.strip()))
+            with open(trace, "w") as fo:
+                for line in open(trace_all):
+                    m = RE_EV.search(line[:400]) or RE_EV.search(line)
+                    if m and (m.group(1) in ROUTING_ALPHABET or m.group(1) == "Prog"):
+                        fo.write(line)
             bad, secs, ts = validate(trace, "RoutingTrace", FIFO_TCFG, shards, work)
             tstates += ts
+            import check_sys
+            gbad, gsecs, gts = validate(trace_all, "GorumsTrace", check_sys.TCFG, shards, work)
+            tstates += gts
+            sysprog_sections += len(gsecs)
+            sysprog_events += sum(len(x) for x in gsecs)
+            os.remove(trace_all)
+            bad = bad + [(t, "Gorums:" + ev, rec) for t, ev, rec in gbad if ev not in ("ProgEnd", "Routers")]
             total_exec += st["executed"]
             total_calls += st["calls"]
             nontriv += st["distinct_nontrivial"]
@@ -452,6 +476,7 @@ def check_routing(prop, tier, seed, replay):
                "samples": samples, "exhaustive": not len3, "design_level": design, "programs": total_exec,
                "calls": total_calls, "m3_calls": m3calls, "trace_states": tstates, "decides": ROUTING_OWN[prop],
                "lifecycle_scenarios": nscen,
+               "system_level_programs": {"module": "GorumsTrace", "sections": sysprog_sections, "events": sysprog_events},
                "transport_level_free_workloads": {"node_traces": facc, "events": fev, "calls": tcalls,
                                                   "unconfirmed": funconf, "faults": ffaults}}
         if syscov:
